@@ -1509,3 +1509,22 @@ Proof.
   split; [apply (proj1 (broadcast_shape_spec_proof _)); reflexivity|].
   split; [repeat constructor; lia|]. split; [simpl; auto|]. reflexivity.
 Qed.
+
+(* ================================================================== astype returns a fresh object unless copy=False *)
+
+(* numpy.ndarray.astype(dtype, copy=True) always returns a newly allocated array; with copy=False it
+   returns the operand itself exactly when nothing has to change.  The early `return self` of
+   SparseArray.astype (condition regenerated from the source) has exactly that meaning: in particular a
+   later in-place update of the result can never reach the operand when copy is true. *)
+Theorem astype_object_spec_proof (self fresh : nat) (same_dtype copy : bool) :
+  astype_object self fresh same_dtype copy = if same_dtype && negb copy then self else fresh.
+Proof. destruct same_dtype, copy; reflexivity. Qed.
+
+Theorem astype_copy_fresh_proof (self fresh : nat) (same_dtype : bool) :
+  fresh <> self -> astype_object self fresh same_dtype s_astype_copy_default <> self /\
+                   astype_object self fresh same_dtype true <> self.
+Proof. intros H. rewrite !astype_object_spec_proof. simpl. rewrite andb_false_r. auto. Qed.
+
+Example astype_copy_fresh_nonvacuous :
+  astype_object 1 2 true true = 2%nat /\ astype_object 1 2 true false = 1%nat /\ astype_object 1 2 false false = 2%nat.
+Proof. repeat split. Qed.
